@@ -94,8 +94,10 @@ def zernike(mask, index, normalize=True, rho=None, theta=None):
         else:
             Z = R(m, n, rho) * np.sin(m*theta) * mask
 
-    #out[mask_slice] = Z
-    out = Z
+    # zero outside the mask whatever the polynomial does there (far from a small
+    # aperture rho**n overflows, caller-supplied coordinates may be undefined
+    # outside the aperture, and inf or nan times zero is nan)
+    out = np.where(mask != 0, Z, 0.0)
     return out
 
 
